@@ -344,10 +344,10 @@ def h_load(n):
       e.reach('load')
       model, ref_raised = [], False
       for c in recipe:
-        is_nq = bool(mkbool(_teq(c['algorithm_key'], _Alg.NO_QUANTIZE)))
+        # every rule is loaded with the config it was saved with (also
+        # no_quantize rules, see C12: an exported recipe reloads to itself)
         model, r = ref_add(model, c['regex'], c['operation'],
-                           None if is_nq else c['op_config'],
-                           c['algorithm_key'])
+                           c['op_config'], c['algorithm_key'])
         if r:
           ref_raised = True
           break
@@ -557,11 +557,10 @@ def replay(c):
         raised = True
       ref_raised = False
       for cdict in recipe:
-        nq = cdict['algorithm_key'] == _Alg.NO_QUANTIZE
         model, r = ref_add_c(
             model, cdict['regex'], cdict['operation'],
-            _DEFAULT_CFG if nq else qtyping.OpQuantizationConfig.from_dict(
-                cdict['op_config']), cdict['algorithm_key'])
+            qtyping.OpQuantizationConfig.from_dict(cdict['op_config']),
+            cdict['algorithm_key'])
         if r:
           ref_raised = True
           break
